@@ -1,0 +1,9 @@
+//go:build verif
+
+package fasthttp
+
+import "time"
+
+// Thin exports for the /verif correspondence harness (property C31).
+
+func VerifParseRFC1123DateGMT(b []byte) (time.Time, bool) { return parseRFC1123DateGMT(b) }
